@@ -33,7 +33,10 @@ def unit_shapes(unit):
     ur = UnitResult(unit, max_samples=4)
     shapes = [('None', None), ('True', True), ('int', 7132), ('negative int', -5), ('float', 1.5), ('nan', float('nan')), ('bytes', b'0123456789'),
               ('empty bytes', b''), ('list of ints', [1, 2, 3]), ('list with None', ['1', None]), ('tuple', (1, '2')), ('dict', {'a': 1}), ('empty list', []),
-              ('object', Obj()), ('str subclass', StrSub('0123456789')), ('set', {'1'}), ('nested list', [['1', '2'], '3'])]
+              ('object', Obj()), ('str subclass', StrSub('0123456789')), ('set', {'1'}), ('nested list', [['1', '2'], '3']),
+              # "very long text" (beyond int()'s 4300-digit limit); the symbolic counterpart are the `repeat` units
+              ('5000 digits', '1' * 5000), ('5000 zeros', '0' * 5000), ('100000 digits', '7' * 100000), ('5000 letters', 'A' * 5000),
+              ('6000 separated digits', ' 1' * 3000), ('5000 non-ASCII digits', '\u0661' * 5000)]
     facts = 0
     for modname in unit['modules']:
         for label, v in shapes:
@@ -57,7 +60,7 @@ def unit_shapes(unit):
                 continue
             kind, func, r = bad
             ur.violation({'module': modname, 'func': func, 'options': '', 'kind': kind, 'exc_type': r.get('type') if r['kind'] == 'exc' else '', 'frame': r.get('frame', ''),
-                          'witness': label, 'detail': 'non-string argument (%s): %s' % (label, r.get('msg') or r.get('value')),
+                          'witness': label, 'detail': 'argument shape (%s): %s' % (label, r.get('msg') or r.get('value')),
                           'steps': [step(modname, 'validate', v), step(modname, 'is_valid', v)]})
     ur.res['states'] = max(1, facts)
     ur.res['transitions'] = max(1, facts)
@@ -323,6 +326,11 @@ def make_units(prop, tier, only=None):
                 u = {'prop': prop, 'module': modname, 'options': {}, 'L': min(Ls[0], 6), 'K': 1, 'shape': shape, 'is_valid_takes_options': True}
                 u.update(dict(max_paths=400, timeout=8, query_timeout_ms=4000) if tier == 'quick' else dict(max_paths=5000, timeout=120, query_timeout_ms=30000))
                 units.append(u)
+        if prop == 'C01':
+            # "very long text": two symbolic characters repeated to 4302 characters (one more than int()'s digit limit)
+            u = {'prop': prop, 'module': modname, 'options': {}, 'L': 2, 'repeat': 2151, 'K': 1, 'prio': 1, 'is_valid_takes_options': True}
+            u.update(dict(max_paths=60, timeout=20, query_timeout_ms=4000) if tier == 'quick' else dict(max_paths=400, timeout=120, query_timeout_ms=20000))
+            units.append(u)
         import random
         rnd = random.Random(common.seed() * 7919 + len(units))
         for lit, pos in common.neighbourhoods(info, 2 if tier == 'quick' else 12, rnd):
